@@ -46,8 +46,10 @@ theorem maybeAccept_sameOE (s : State) (b : BlockAbs) : SameOE s (maybeAccept s 
     · split
       · exact ⟨rfl, rfl⟩
       · split
-        · exact sameOE_of_core ((sameCore_setSt s _ _).trans (connectBest_sameCore _ _))
-        · exact connectBest_sameOE_of s _ _ rfl rfl
+        · exact ⟨rfl, rfl⟩
+        · split
+          · exact sameOE_of_core ((sameCore_setSt s _ _).trans (connectBest_sameCore _ _))
+          · exact connectBest_sameOE_of s _ _ rfl rfl
 
 theorem acceptKids_sameOE (s : State) (ks : List BlockAbs) (acc : List Hash) (e : Bool) :
     SameOE s (acceptKids s ks acc e).1 := by
